@@ -127,12 +127,55 @@ func (s *c31Sk) shell(level int, brace *Rand) string {
 		v := fmt.Sprintf("c%d", level)
 		return fmt.Sprintf("for ((%s=0;%s<%d;%s++))\ndo\n%s\ndone", v, v, s.n, v, s.kids[0].shell(level+1, brace))
 	case "sub":
-		if brace.Bool() {
+		switch brace.Intn(3) {
+		case 0:
 			return "{\n" + s.kids[0].shell(level, brace) + "\n}"
+		case 1:
+			// a command substitution runs its statements through the long-lived r.ecfg.CmdSubst
+			// callback: the place where a reused Runner could hold on to an old context
+			return fmt.Sprintf("v%d=$(\n%s\n)", level, s.kids[0].shell(level, brace))
 		}
 		return "(\n" + s.kids[0].shell(level, brace) + "\n)"
 	}
 	return ":"
+}
+
+// ---- reused Runners -------------------------------------------------------------------------------
+//
+// A history is a string over: 'a' an earlier Run whose context stays alive, 'c' an earlier Run whose
+// context is cancelled afterwards, 'R' Runner.Reset, 'S' continue on a Runner.Subshell() copy.
+// The program under test then runs under a fresh context of its own.
+
+const c31WarmSrc = "w=$(echo warm); g0() { :; }; echo \"$w\" >/dev/null\n"
+
+var c31Hists = []string{"", "", "", "", "", "", "a", "a", "c", "ac", "ca", "aa", "aR", "cR", "aS", "acS", "Sa", "aRa", "Ra", "aSa"}
+
+// c31ApplyHist plays the history on r and returns the Runner to use and a cleanup function that
+// releases the contexts left alive.
+func c31ApplyHist(r *interp.Runner, hist string) (*interp.Runner, func()) {
+	var alive []context.CancelFunc
+	warm, _ := syntax.NewParser().Parse(strings.NewReader(c31WarmSrc), "")
+	for _, h := range hist {
+		switch h {
+		case 'a', 'c':
+			ctx, cancel := context.WithCancel(context.Background())
+			safely(func() { r.Run(ctx, warm) })
+			if h == 'c' {
+				cancel()
+			} else {
+				alive = append(alive, cancel)
+			}
+		case 'R':
+			r.Reset()
+		case 'S':
+			r = r.Subshell()
+		}
+	}
+	return r, func() {
+		for _, c := range alive {
+			c()
+		}
+	}
 }
 
 type c31SkResult struct {
@@ -146,7 +189,7 @@ type c31SkResult struct {
 }
 
 // c31RunSk runs the skeleton program on the real Runner; the k-th atom cancels the context.
-func c31RunSk(src string, k int, bits string) c31SkResult {
+func c31RunSk(src string, k int, bits string, hist string) c31SkResult {
 	var res c31SkResult
 	f, err := syntax.NewParser().Parse(strings.NewReader(src), "")
 	if err != nil {
@@ -186,6 +229,9 @@ func c31RunSk(src string, k int, bits string) c31SkResult {
 		res.panicked = "new: " + err.Error()
 		return res
 	}
+	r, release := c31ApplyHist(r, hist)
+	defer release()
+	errBuf.Reset()
 	done := make(chan error, 1)
 	go func() {
 		var rerr error
@@ -237,9 +283,14 @@ func c31SkCase(c *Ctx, r *Rand) {
 	if b == "" {
 		b = "-"
 	}
-	res := c31RunSk(src, k, bits.String())
+	hist := r.Pick(c31Hists)
+	res := c31RunSk(src, k, bits.String(), hist)
 	op := fmt.Sprintf("run %d 4000 %s %s", k, b, strings.Join(toks, " "))
-	witness := fmt.Sprintf("sk k=%d bits=%s src=%s", k, b, hx(src))
+	hs := hist
+	if hs == "" {
+		hs = "-"
+	}
+	witness := fmt.Sprintf("sk hist=%s k=%d bits=%s src=%s", hs, k, b, hx(src))
 	if res.timedOut {
 		// after the k-th atom cancelled the context the program must end
 		c.Fail(witness, fmt.Sprintf("skeleton program still running %v after the context was cancelled inside atom %d", c31HardLimit, k))
@@ -262,7 +313,7 @@ func c31SkCase(c *Ctx, r *Rand) {
 	if res.afterCalls > 0 {
 		c.Fail(witness, fmt.Sprintf("%d atomic command(s) started after the context was cancelled (inside atom %d)", res.afterCalls, k))
 	}
-	tags := []string{"leg=sk", fmt.Sprintf("atoms=%d", min(len(res.log), 15))}
+	tags := []string{"leg=sk", fmt.Sprintf("atoms=%d", min(len(res.log), 15)), "hist=" + hs}
 	if res.cancelled {
 		tags = append(tags, "sk-cancel-recorded")
 	}
@@ -279,6 +330,7 @@ type c31Timed struct {
 	stdin   string // "pipe" (a pipe nobody writes to) or "nil"
 	needErr bool   // a statement follows the blocking point: Run must report an error
 	src     string
+	hist    string // earlier use of the same Runner (see c31ApplyHist); "" = a new Runner
 }
 
 func (t c31Timed) witness() string {
@@ -286,12 +338,19 @@ func (t c31Timed) witness() string {
 	if t.needErr {
 		e = 1
 	}
+	if t.hist != "" {
+		return fmt.Sprintf("rtimed hist=%s delay=%d stdin=%s err=%d src=%s", t.hist, t.delayMs, t.stdin, e, hx(t.src))
+	}
 	return fmt.Sprintf("timed delay=%d stdin=%s err=%d src=%s", t.delayMs, t.stdin, e, hx(t.src))
 }
 
 func c31ParseTimed(line string) (c31Timed, bool) {
 	var t c31Timed
 	fs := strings.Fields(line)
+	if len(fs) == 6 && fs[0] == "rtimed" {
+		t.hist = strings.TrimPrefix(fs[1], "hist=")
+		fs = append([]string{"timed"}, fs[2:]...)
+	}
 	if len(fs) != 5 || fs[0] != "timed" {
 		return t, false
 	}
@@ -382,6 +441,8 @@ func c31RunTimed(c *Ctx, t c31Timed) c31TimedResult {
 		res.parseErr = true
 		return res
 	}
+	r, release := c31ApplyHist(r, t.hist)
+	defer release()
 	ctx, cancel := context.WithCancel(context.Background())
 	done := make(chan struct{})
 	var rerr error
@@ -485,6 +546,10 @@ var c31Blockers = []struct {
 	{"if while :; do :; done; then :; fi", "nil", false},
 	{"[[ -n $(hang) ]]", "nil", false},
 	{"trap 'while :; do :; done' ERR; false", "nil", false},
+	{"lf() { local v=$(while true; do :; done); }; lf", "nil", false},
+	{"echo \"$(while true; do :; done)\"", "nil", false},
+	{"true < <(hang); wait", "nil", false},
+	{"v=${u:-$(hang)}", "nil", false},
 }
 
 func c31GenTimed(r *Rand) c31Timed {
@@ -509,7 +574,7 @@ func c31GenTimed(r *Rand) c31Timed {
 		body = b.src
 	}
 	pre := r.Pick([]string{"", "", "x=1\n", "echo start\n", "set -e\n", "set -o pipefail\n", "trap 'echo bye' EXIT\n", "y=$(echo hi)\n"})
-	t := c31Timed{stdin: b.stdin}
+	t := c31Timed{stdin: b.stdin, hist: r.Pick(c31Hists)}
 	t.delayMs = r.Pick2([]int{0, 1, 5, 20, 50, 100, 200, 300})
 	if r.Chance(75) {
 		// a statement follows the blocking point, so some stop() check sees the cancellation
@@ -556,7 +621,7 @@ func c31(c *Ctx) {
 	tres := parallelMap(len(timed), 4, func(i int) c31TimedResult { return c31RunTimed(c, timed[i]) })
 	for i, t := range timed {
 		res := tres[i]
-		tags := []string{"leg=timed", fmt.Sprintf("delay=%d", t.delayMs), "needErr=" + strconv.FormatBool(t.needErr)}
+		tags := []string{"leg=timed", fmt.Sprintf("delay=%d", t.delayMs), "needErr=" + strconv.FormatBool(t.needErr), "reused=" + strconv.FormatBool(t.hist != "")}
 		switch {
 		case res.parseErr:
 			tags = append(tags, "timed-parse-error")
